@@ -121,6 +121,10 @@ func (h *Header) Load(buf []byte) error {
 	if lenWithoutMagicAndLen > uint32(len(buf)) {
 		return fmt.Errorf("invalid header length")
 	}
+	if len(buf) < 25 {
+		// magic, length, value size, number of buckets and version take 25 bytes
+		return fmt.Errorf("invalid header length")
+	}
 	// read the rest of the header
 	*h = Header{
 		ValueSize:  binary.LittleEndian.Uint64(buf[12:20]),
